@@ -5,8 +5,47 @@ import numpy as np
 import core, gen
 from core import da, Axis, DimArray
 from .base import Prop
-from .c08 import axis_py, nan_pattern
+from .c08 import axis_py, nan_pattern, lean_axis_arg, resolve_dims, spell_elems, add_axis_attrs
 from .c06 import lab_key
+
+DUMMY = {"op": "union", "a": {"name": "x", "kind": "i", "labels": []}, "b": {"name": "x", "kind": "i", "labels": []}, "join": "outer"}
+
+# TODO(defect): a.diff(axis=(d1, d2)) without keepaxis raises AttributeError ("MultiAxis object has no attribute
+# _monotonic": the grouped axis cannot be sliced) for the backward / forward schemes, although the docstring of diff
+# announces tuples of axes (only keepaxis=True works).  The tuple form is outside the quantifier of C09 ("every axis by
+# name or position").  While this is open the tuple stratum of diff is generated with keepaxis=True only.
+TODO_DEFECT_DIFF_TUPLE = True
+
+
+def canon_component(x):
+    """a label as it comes back inside a grouped (tuple) label: NumPy may have coerced the components of mixed-kind
+    tuples to a common kind (int -> float, anything -> str); compared modulo that coercion, as C11 does"""
+    try:
+        return ("n", Fraction(float(x)))
+    except (TypeError, ValueError):
+        return ("s", str(x))
+
+
+def comp_of_canon(v):
+    """canonical value / encoded label -> comparable component"""
+    if v[0] == "n":
+        return ("n", Fraction(v[1], v[2]))
+    if v[0] == "s":
+        return canon_component(v[1])
+    if v[0] == "b":
+        return ("n", Fraction(int(v[1])))
+    return ("?", json_key(v))
+
+
+def json_key(v):
+    import json
+    return json.dumps(v, sort_keys=True)
+
+
+def nan_scan(fn, skipna):
+    if not skipna:
+        return np.cumsum if fn == "cumsum" else np.cumprod
+    return np.nancumsum if fn == "cumsum" else np.nancumprod
 
 
 def fl(v):
@@ -21,10 +60,17 @@ class C09(Prop):
                 "arg_labels", "diffAxis_iterate", "diffN_values", "diff2_values", "diffN_total", "diffN_labels", "diffN_empty",
                 "diffN_keepaxis", "cum_last_eq_reduce", "arg_value_spec", "arg_whole_spec", "arg_label_dup_counterexample"]
     rule = ("numeric (float/int) arrays of rank 1-4 with sizes 1-5 along the operated axis, numeric sorted / unsorted and "
-            "str labels; cumsum / cumprod (default and every axis by name / position); diff with n in {1,2,3}, the three "
-            "schemes and both keepaxis settings; argmin / argmax over the whole array and along each axis, with ties and "
-            "NaNs, checked also by indexing back. Non-trivial = operated axis longer than 1; distinct = canonical JSON")
-    assumptions = ["np.cumsum / np.diff / np.argmin on a 1-D fibre are NumPy's"]
+            "str labels, metadata on the array and on (some of) its axes, NaNs (some / whole fibre / all) in the values; "
+            "cumsum / cumprod (default and every axis by name / position, tuples / lists of names and positions; skipna "
+            "default / False / True, by keyword or positionally); diff with n in {1,2,3}, the three "
+            "schemes and both keepaxis settings, NaNs propagating, and over a tuple of dimensions (keepaxis only, see "
+            "TODO_DEFECT_DIFF_TUPLE); argmin / argmax over the whole array, along each axis and over tuples of "
+            "dimensions, with ties, NaNs, all-NaN slices and both skipna settings, checked also by indexing back. "
+            "Non-trivial = operated axis longer than 1; distinct = canonical JSON")
+    assumptions = ["np.cumsum / np.diff / np.argmin (and the nan-prefixed variants for skipna=True) on a 1-D fibre are NumPy's",
+                   "label tuples returned by argmin / argmax over several dimensions are compared component-wise modulo "
+                   "NumPy's coercion of mixed-kind tuples (int -> float, anything -> str), as in C11",
+                   "a slice with nothing left once NaNs are skipped: NumPy's nanargmin raises ValueError; nothing is demanded there"]
 
     def mirrors(self):
         import sys as _s
@@ -48,23 +94,51 @@ class C09(Prop):
             names = [a["name"] for a in arr["axes"]]
             ax = rng.choice([["name", names[d]], ["pos", d], ["pos", d - rank]])
             gen.dtype_variants(rng, arr)      # unsigned / narrow label dtypes, float32 / int32 values, Fortran order
+            if rng.random() < 0.4:
+                add_axis_attrs(rng, arr)
+            many = None
+            if rank >= 2 and rng.random() < 0.25:
+                # a tuple / list of dimensions (names, positions or a mix) in any order
+                listed = rng.sample(names, 2 if rank == 2 else rng.choice([2, 2, 2] + list(range(3, rank + 1))))
+                many = ["many", spell_elems(rng, listed, names, rng.choice(["names", "names", "pos", "neg", "mixed"]))]
+                if rng.random() < 0.25:
+                    many.append("list")
             r = rng.random()
-            if r < 0.25:
+            if r < 0.27:
+                if arr["vkind"] == "f" and rng.random() < 0.5:
+                    arr["nan_at"] = nan_pattern(rng, shape, rng.choice(["some", "some", "fibre", "all"]))
                 axc = ax if rng.random() < 0.8 else "default"
-                if rank >= 2 and rng.random() < 0.25:
-                    # a tuple of dimensions in any order: accumulated along the grouped dimension, in the listed order
-                    axc = ["many", [["name", x] for x in rng.sample(names, 2)]]
-                yield {"op": "cum", "array": arr, "fn": rng.choice(["cumsum", "cumprod"]), "axis": axc}
+                if many is not None:
+                    # accumulated along the grouped dimension, in the listed order
+                    axc = many
+                c = {"op": "cum", "array": arr, "fn": rng.choice(["cumsum", "cumprod"]), "axis": axc,
+                     "skipna": rng.choice([None, None, False, True, True])}
+                if c["skipna"] is not None and axc != "default" and rng.random() < 0.25:
+                    c["positional"] = True          # a.cumsum(axis, skipna)
+                yield c
             elif r < 0.65:
-                yield {"op": "diff", "array": arr, "axis": ax if rng.random() < 0.85 else "default", "n": rng.choice([1, 1, 2, 3]),
-                       "scheme": rng.choice(["backward", "forward", "centered"]), "keepaxis": rng.random() < 0.4}
+                if arr["vkind"] == "f" and rng.random() < 0.3:
+                    arr["nan_at"] = nan_pattern(rng, shape, rng.choice(["some", "some", "fibre"]))
+                c = {"op": "diff", "array": arr, "axis": ax if rng.random() < 0.85 else "default", "n": rng.choice([1, 1, 2, 3]),
+                     "scheme": rng.choice(["backward", "forward", "centered"]), "keepaxis": rng.random() < 0.4}
+                if many is not None and rng.random() < 0.6:
+                    c["axis"] = many
+                    c["scheme"] = rng.choice(["backward", "forward"])
+                    if TODO_DEFECT_DIFF_TUPLE:
+                        c["keepaxis"] = True
+                yield c
             else:
                 if arr["vkind"] == "f":
-                    arr["nan_at"] = nan_pattern(rng, shape, rng.choice(["none", "none", "some"]))
+                    arr["nan_at"] = nan_pattern(rng, shape, rng.choice(["none", "none", "some", "some", "fibre", "all"]))
                 # ties: duplicate some values
                 arr["ties"] = rng.random() < 0.4
-                yield {"op": "arg", "array": arr, "fn": rng.choice(["argmin", "argmax"]),
-                       "axis": ax if rng.random() < 0.75 else None}
+                c = {"op": "arg", "array": arr, "fn": rng.choice(["argmin", "argmax"]),
+                     "axis": ax if rng.random() < 0.75 else None, "skipna": rng.choice([None, None, False, True, True])}
+                if many is not None:
+                    c["axis"] = many
+                if c["skipna"] is not None and c["axis"] is not None and rng.random() < 0.25:
+                    c["positional"] = True          # a.argmin(axis, skipna)
+                yield c
 
     def build(self, c):
         a = core.build_array(c["array"], 0)
@@ -81,27 +155,49 @@ class C09(Prop):
             a.attrs.update(core.build_array(c["array"], 0).attrs)
         return a
 
+    def call_args(self, c):
+        """(args, kwargs) of the call as the case spells it: axis / skipna by keyword, positionally or left out"""
+        args, kw = [], {}
+        sk = c.get("skipna")
+        if c.get("positional"):
+            args = [axis_py(c["axis"]), sk]
+        else:
+            if c["axis"] != "default":
+                kw["axis"] = axis_py(c["axis"])
+            if sk is not None:
+                kw["skipna"] = sk
+        return args, kw
+
     def impl(self, c):
         toks = core.AttrTokens()
         a = self.build(c)
         before = core.obs_array(a, toks)
+
+        def lab(x):
+            return core.enc_label(x if not isinstance(x, np.generic) else x.item())
 
         def run():
             with warnings.catch_warnings():
                 warnings.simplefilter("ignore")
                 with np.errstate(all="ignore"):
                     if c["op"] == "cum":
-                        r = getattr(a, c["fn"])() if c["axis"] == "default" else getattr(a, c["fn"])(axis=axis_py(c["axis"]))
+                        args, kw = self.call_args(c)
+                        r = getattr(a, c["fn"])(*args, **kw)
                     elif c["op"] == "diff":
                         kw = {"n": c["n"], "scheme": c["scheme"], "keepaxis": c["keepaxis"]}
                         r = a.diff(**kw) if c["axis"] == "default" else a.diff(axis=axis_py(c["axis"]), **kw)
                     else:
-                        r = getattr(a, c["fn"])(axis=axis_py(c["axis"]))
+                        args, kw = self.call_args(c)
+                        r = getattr(a, c["fn"])(*args, **kw)
                         if c["axis"] is None:
                             # tuple of labels: index back
                             val = a[r] if a.ndim > 1 else a[r[0]]
-                            return {"tuple": [core.enc_label(x if not isinstance(x, np.generic) else x.item()) for x in r],
+                            return {"tuple": [lab(x) for x in r],
                                     "at": core.canon_value(val), "scalar": True, "dims": [], "axes": [], "shape": [], "values": [], "attrs": None, "vkind": "O"}
+                        if isinstance(r, tuple):
+                            # every dimension listed: one tuple of labels, in the listed order
+                            return {"tuple": [lab(x) for x in r], "scalar": True, "dims": [], "axes": [], "shape": [],
+                                    "values": [], "attrs": None, "vkind": "O"}
             return core.obs_array(r, toks)
         out = core.guarded(run)
         out["input"] = before
@@ -109,86 +205,285 @@ class C09(Prop):
             out["operand_modified"] = True
         return out
 
+    def modelled(self, c):
+        """is the case sent to the Lean mirror?  (tuple axes of diff / argmin / argmax: grouped tuple labels are not
+        modelled there, the oracle decides alone)"""
+        ax = c["axis"]
+        return not (c["op"] in ("diff", "arg") and ax not in (None, "default") and ax[0] == "many")
+
     def request(self, c):
+        if not self.modelled(c):
+            return dict(DUMMY)
         toks = core.AttrTokens()
         arr = core.lean_array(gen.clean(c["array"]), toks)
         rank = len(c["array"]["axes"])
         ax = c["axis"]
         if ax == "default":
             ax = ["pos", -1]
+        ax = lean_axis_arg(ax)
         if c["op"] == "cum":
             return {"op": "transform", "fn": "cum", "arrays": [arr], "axis": ax}
         if c["op"] == "diff":
             return {"op": "transform", "fn": "diff", "arrays": [arr], "axis": ax, "scheme": c["scheme"], "keepaxis": c["keepaxis"], "n": c["n"]}
         return {"op": "transform", "fn": "arg", "arrays": [arr], "axis": ax if ax is not None else ["pos", 0]}
 
+    # ------------------------------------------------------------ argmin / argmax
+    def judge_arg(self, c, io, lean, a):
+        bad, prop_bad = [], []
+        vals = a.values
+        names = list(a.dims)
+        skip = bool(c.get("skipna"))
+        if skip:
+            # "NaNs are ignored as missing values": the extremum of what is left, NumPy's nanarg* position
+            argf = np.nanargmin if c["fn"] == "argmin" else np.nanargmax
+            ext = np.nanmin if c["fn"] == "argmin" else np.nanmax
+        else:
+            argf = np.argmin if c["fn"] == "argmin" else np.argmax
+            ext = np.min if c["fn"] == "argmin" else np.max
+
+        def allnan(x):
+            x = np.asarray(x)
+            return bool(skip and x.dtype.kind == "f" and x.size and np.all(np.isnan(x)))
+
+        def done():
+            if io.get("operand_modified"):
+                prop_bad.append("operand_modified")
+            if not bad and not prop_bad:
+                return None
+            return {"kind": "P" if prop_bad else "M", "differs": sorted(set(bad + prop_bad)), "msg": io.get("msg")}
+
+        def same_axes(got, keep):
+            """the result is laid out over the remaining dimensions, which are the input's (labels and metadata)"""
+            if got["dims"] != keep:
+                prop_bad.append("dims:remaining")
+                return False
+            in_axes = {x["name"]: x for x in io["input"]["axes"]}
+            for x in got["axes"]:
+                if x["labels"] != in_axes[x["name"]]["labels"]:
+                    prop_bad.append("axes.labels")
+                if x["attrs"] != in_axes[x["name"]]["attrs"]:
+                    prop_bad.append("axes.attrs")
+            return "axes.labels" not in prop_bad
+
+        if c["axis"] is None:
+            # whole array: returned labels index back to the extremum
+            if allnan(vals):
+                # nothing is left once the NaNs are skipped: NumPy's nanarg* raises ValueError; nothing more is stated
+                if "err" in io and io["err"] != "value":
+                    prop_bad.append("outcome:" + io["err"])
+                return done()
+            if "ok" in io:
+                with warnings.catch_warnings():
+                    warnings.simplefilter("ignore")
+                    want = ext(vals)
+                if io["ok"]["at"] != core.canon_value(want.item() if isinstance(want, np.generic) else want):
+                    prop_bad.append("values:index_back")
+                pos = np.unravel_index(argf(vals), vals.shape)
+                wl = [core.enc_label(ax.values[p].item() if isinstance(ax.values[p], np.generic) else ax.values[p]) for ax, p in zip(a.axes, pos)]
+                if io["ok"]["tuple"] != wl:
+                    prop_bad.append("axes.labels:arg")
+            else:
+                prop_bad.append("outcome:" + io["err"])
+            return done()
+
+        if c["axis"][0] == "many":
+            # several dimensions at once: per cell of the remaining dimensions a tuple of labels (one per listed
+            # dimension, in the listed order) that indexes back to the extremum over the listed dimensions
+            listed = resolve_dims(c["axis"], names)
+            rest = [d for d in names if d not in listed]
+            v = vals.transpose([names.index(d) for d in rest + listed])
+            rshape = v.shape[:len(rest)]
+            rows = v.reshape(int(np.prod(rshape)) if rshape else 1, -1)
+            dead = [allnan(r) for r in rows]
+            if "err" in io:
+                if not (any(dead) and io["err"] == "value"):
+                    prop_bad.append("outcome:" + io["err"])
+                return done()
+            got = io["ok"]
+            if not rest:
+                if "tuple" not in got:
+                    prop_bad.append("scalar")
+                    return done()
+                tuples = [got["tuple"]]
+            else:
+                if got.get("scalar") or not same_axes(got, rest):
+                    if got.get("scalar"):
+                        prop_bad.append("dims:remaining")
+                    return done()
+                if got["shape"] != list(rshape):
+                    prop_bad.append("shape")
+                    return done()
+                tuples = [x[1] if x[0] == "t" else None for x in got["values"]]
+            in_axes = {x["name"]: x for x in io["input"]["axes"]}
+            for k, (row, t) in enumerate(zip(rows, tuples)):
+                if dead[k]:
+                    continue
+                if t is None or len(t) != len(listed):
+                    prop_bad.append("values:label_tuple")
+                    break
+                where = dict(zip(rest, np.unravel_index(k, rshape))) if rest else {}
+                for d, comp in zip(listed, t):
+                    cands = [j for j, l in enumerate(in_axes[d]["labels"]) if comp_of_canon(l) == comp_of_canon(comp)]
+                    if not cands:
+                        prop_bad.append("axes.labels:arg")
+                        break
+                    where[d] = cands[0]
+                else:
+                    with warnings.catch_warnings():
+                        warnings.simplefilter("ignore")
+                        want = ext(row)
+                    at = vals[tuple(where[d] for d in names)]
+                    if core.canon_value(at) != core.canon_value(want):
+                        prop_bad.append("values:index_back")
+                        break
+                    continue
+                break
+            return done()
+
+        # ---- along one dimension
+        pos = names.index(c["axis"][1]) if c["axis"][0] == "name" else c["axis"][1] % a.ndim
+        keep = [d for i, d in enumerate(names) if i != pos]
+        fibs = np.moveaxis(vals, pos, -1).reshape(-1, vals.shape[pos])
+        dead = [allnan(f) for f in fibs]
+
+        class Env(core.CellEnv):
+            def ev(self, cell):
+                if cell[0] == "arg":
+                    fib = np.array([self.ev(x) for x in cell[1]], dtype=float)
+                    with warnings.catch_warnings():
+                        warnings.simplefilter("ignore")
+                        p = int(argf(fib))
+                    return core.dec_label(cell[2][p])
+                return core.CellEnv.ev(self, cell)
+        env = Env([vals])
+        if any(dead):
+            # a slice with nothing left once the NaNs are skipped: NumPy's nanarg* raises ValueError; the cells of the
+            # other slices are still decided below when a result comes back
+            if "err" in io:
+                if io["err"] != "value":
+                    prop_bad.append("outcome:" + io["err"])
+                return done()
+        elif "ok" in lean:
+            lo = lean["ok"]
+            if "scalar" in lo:
+                lv = [core.canon_value(env.ev(lo["scalar"]))]; ldims = []; laxes = []; lattrs = None
+            else:
+                lv = [core.canon_value(env.ev(x)) for x in lo["cells"]]; ldims = lo["dims"]; laxes = lo["axes"]; lattrs = lo.get("attrs")
+            if "err" in io:
+                bad.append("outcome")
+            else:
+                got = io["ok"]
+                if got["dims"] != ldims:
+                    bad.append("dims")
+                elif [(x["name"], x["labels"]) for x in got["axes"]] != [(x["name"], x["labels"]) for x in laxes]:
+                    bad.append("axes")
+                elif [x["attrs"] for x in got["axes"]] != [x.get("attrs", []) for x in laxes]:
+                    bad.append("axes.attrs")
+                if [same_label(x, y) for x, y in zip(got["values"], lv)].count(False) or len(lv) != len(got["values"]):
+                    bad.append("values")
+                if not got["scalar"] and lattrs is not None and got["attrs"] != lattrs:
+                    bad.append("M.attrs")          # (the statement says nothing about the metadata of argmin / argmax)
+        elif "ok" in io:
+            bad.append("outcome")
+        if "ok" in io:
+            got = io["ok"]
+            # the returned label is the label at NumPy's position of the extremum along the dimension
+            labs = a.axes[pos].values
+            want = []
+            for f, dd in zip(fibs, dead):
+                if dd:
+                    want.append(None)
+                    continue
+                with warnings.catch_warnings():
+                    warnings.simplefilter("ignore")
+                    x = labs[int(argf(f))]
+                want.append(core.canon_value(x.item() if isinstance(x, np.generic) else x))
+            if len(want) != len(got["values"]) or [w is not None and not same_label(x, w) for x, w in zip(got["values"], want)].count(True):
+                prop_bad.append("values:labels_of_extremum")
+            if got["scalar"]:
+                if keep:
+                    prop_bad.append("dims:remaining")
+            else:
+                same_axes(got, keep)
+        elif "ok" in lean:
+            prop_bad.append("outcome:" + io["err"])
+        return done()
+
+    # ------------------------------------------------------------ diff over several dimensions
+    def judge_diff_many(self, c, io, a):
+        """diff over a tuple of dimensions: the listed dimensions grouped (in the listed order) into one leading
+        dimension, NumPy's n-th difference along it; keepaxis keeps the grouped labels and pads NaN"""
+        prop_bad = []
+        vals = a.values
+        names = list(a.dims)
+        listed = resolve_dims(c["axis"], names)
+        rest = [d for d in names if d not in listed]
+        n = c["n"]
+        if "err" in io:
+            prop_bad.append("outcome:" + io["err"])
+        else:
+            got = io["ok"]
+            v = vals.transpose([names.index(d) for d in listed + rest])
+            v = v.reshape((-1,) + v.shape[len(listed):]).astype(float)
+            L = v.shape[0]
+            in_axes = {x["name"]: x for x in io["input"]["axes"]}
+            combos = [[comp_of_canon(l) for l in combo] for combo in itertools.product(*[in_axes[d]["labels"] for d in listed])]
+            with warnings.catch_warnings():
+                warnings.simplefilter("ignore")
+                inner = np.diff(v, n=n, axis=0)
+            if c["keepaxis"]:
+                pad = np.full((min(n, L),) + v.shape[1:], np.nan)
+                want = np.concatenate([pad, inner], axis=0) if c["scheme"] == "backward" else np.concatenate([inner, pad], axis=0)
+                wl = combos
+                if L < n:
+                    want = None
+            else:
+                want = inner
+                wl = combos[n:] if c["scheme"] == "backward" else combos[:max(L - n, 0)]
+            if got["dims"] != [",".join(listed)] + rest:
+                prop_bad.append("dims:grouped")
+            else:
+                g = got["axes"][0]
+                if [m["name"] for m in g.get("members", [])] != listed:
+                    prop_bad.append("axes.members")
+                elif [[canon_component(x) for x in t] for t in g.get("tuples", [])] != wl:
+                    prop_bad.append("axes.labels:grouped")
+                for x in got["axes"][1:]:
+                    if x["labels"] != in_axes[x["name"]]["labels"]:
+                        prop_bad.append("axes.labels")
+                    if x["attrs"] != in_axes[x["name"]]["attrs"]:
+                        prop_bad.append("axes.attrs")
+                if want is not None:
+                    if got["shape"] != list(want.shape):
+                        prop_bad.append("shape")
+                    elif [fl(core_val(x)) for x in got["values"]] != [fl(x) for x in want.reshape(-1)]:
+                        prop_bad.append("values:numpy")
+            if got["attrs"] != io["input"]["attrs"]:
+                prop_bad.append("attrs")
+        if io.get("operand_modified"):
+            prop_bad.append("operand_modified")
+        if not prop_bad:
+            return None
+        return {"kind": "P", "differs": sorted(set(prop_bad)), "msg": io.get("msg")}
+
     def judge(self, c, io, ans):
-        lean = ans["lib"]
+        lean = ans["lib"] if self.modelled(c) else None
         bad, prop_bad = [], []
         a = self.build(c)
         vals = a.values
         if c["op"] == "arg":
-            argf = np.argmin if c["fn"] == "argmin" else np.argmax
-            ext = np.min if c["fn"] == "argmin" else np.max
-            if c["axis"] is None:
-                # whole array: returned labels index back to the extremum
-                if "ok" in io:
-                    with warnings.catch_warnings():
-                        warnings.simplefilter("ignore")
-                        want = ext(vals)
-                    if io["ok"]["at"] != core.canon_value(want.item() if isinstance(want, np.generic) else want):
-                        prop_bad.append("values:index_back")
-                    pos = np.unravel_index(argf(vals), vals.shape)
-                    wl = [core.enc_label(ax.values[p].item() if isinstance(ax.values[p], np.generic) else ax.values[p]) for ax, p in zip(a.axes, pos)]
-                    if io["ok"]["tuple"] != wl:
-                        prop_bad.append("axes.labels:arg")
-                else:
-                    prop_bad.append("outcome:" + io["err"])
-                return None if not prop_bad else {"kind": "P", "differs": prop_bad, "msg": io.get("msg")}
+            return self.judge_arg(c, io, lean, a)
+        if c["op"] == "diff" and lean is None:
+            return self.judge_diff_many(c, io, a)
+        if True:
+            scan = nan_scan(c.get("fn"), c.get("skipna"))
 
-            class Env(core.CellEnv):
-                def ev(self, cell):
-                    if cell[0] == "arg":
-                        fib = np.array([self.ev(x) for x in cell[1]], dtype=float)
-                        with warnings.catch_warnings():
-                            warnings.simplefilter("ignore")
-                            p = int(argf(fib))
-                        return core.dec_label(cell[2][p])
-                    return core.CellEnv.ev(self, cell)
-            env = Env([vals])
-            if "ok" in lean:
-                lo = lean["ok"]
-                if "scalar" in lo:
-                    lv = [core.canon_value(env.ev(lo["scalar"]))]; ldims = []; laxes = []
-                else:
-                    lv = [core.canon_value(env.ev(x)) for x in lo["cells"]]; ldims = lo["dims"]; laxes = lo["axes"]
-                if "err" in io:
-                    bad.append("outcome")
-                else:
-                    if io["ok"]["dims"] != ldims:
-                        bad.append("dims")
-                    if [same_label(x, y) for x, y in zip(io["ok"]["values"], lv)].count(False) or len(lv) != len(io["ok"]["values"]):
-                        bad.append("values")
-            elif "ok" in io:
-                bad.append("outcome")
-            if "ok" in io:
-                # indexing the array with the returned labels yields its extremum along the axis
-                pos = a.dims.index(c["axis"][1]) if c["axis"][0] == "name" else c["axis"][1] % a.ndim
-                with warnings.catch_warnings():
-                    warnings.simplefilter("ignore")
-                    wantpos = argf(vals, axis=pos)
-                labs = a.axes[pos].values
-                want = [core.canon_value(x.item() if isinstance(x, np.generic) else x) for x in np.asarray(labs[wantpos], dtype=object).reshape(-1)]
-                if [same_label(x, y) for x, y in zip(io["ok"]["values"], want)].count(False) or len(want) != len(io["ok"]["values"]):
-                    prop_bad.append("values:labels_of_extremum")
-                keep = [d for i, d in enumerate(a.dims) if i != pos]
-                if io["ok"]["dims"] != keep:
-                    prop_bad.append("dims:remaining")
-            elif "ok" in lean:
-                prop_bad.append("outcome:" + io["err"])
-        else:
-            scan = np.cumsum if c.get("fn") == "cumsum" else np.cumprod
-            env = core.CellEnv([vals], scan=scan)
+            def scan_cells(x):
+                # a fibre rebuilt from symbolic cells: the NaN cells are Python floats, which would promote a
+                # single-precision fibre to double precision; NumPy accumulates in the array's own precision
+                x = np.asarray(x)
+                return scan(x.astype(vals.dtype) if vals.dtype.kind == "f" else x)
+            env = core.CellEnv([vals], scan=scan_cells)
             if "ok" in lean:
                 lo = core.lean_obs_to_canon(lean["ok"], env)
                 lo["values"] = [fl(env.ev(x)) for x in lean["ok"]["cells"]]
@@ -207,7 +502,7 @@ class C09(Prop):
                 # a tuple of dimensions: the listed dimensions grouped (in the listed order) in front, accumulated along
                 # the grouped dimension - straight from NumPy, independently of flatten
                 got = io["ok"]
-                listed = [k[1] for k in c["axis"][1]]
+                listed = resolve_dims(c["axis"], list(a.dims))
                 rest = [d for d in a.dims if d not in listed]
                 perm = [a.dims.index(d) for d in listed + rest]
                 v = vals.transpose(perm)
@@ -219,6 +514,13 @@ class C09(Prop):
                     prop_bad.append("dims:grouped")
                 elif [fl(core_val(x)) for x in got["values"]] != [fl(x) for x in np.asarray(want, dtype=float).reshape(-1)]:
                     prop_bad.append("values:numpy")
+                else:
+                    in_axes = {x["name"]: x for x in io["input"]["axes"]}
+                    for x in got["axes"][1:]:
+                        if x["labels"] != in_axes[x["name"]]["labels"]:
+                            prop_bad.append("axes.labels")
+                        if x["attrs"] != in_axes[x["name"]]["attrs"]:
+                            prop_bad.append("axes.attrs")
                 if got["attrs"] != io["input"]["attrs"]:
                     prop_bad.append("attrs")
             elif "ok" in io:
@@ -260,6 +562,10 @@ class C09(Prop):
                     for k, (x, w) in enumerate(zip(got["axes"], wl)):
                         if w is not None and x["labels"] != w:
                             prop_bad.append("axes.labels")
+                        # "all axes unchanged" (cum), the other axes and the kept original axis (diff): metadata included;
+                        # nothing is stated about the metadata of a shortened / relabelled axis
+                        if (c["op"] == "cum" or k != pos or c["keepaxis"]) and x["attrs"] != io["input"]["axes"][k]["attrs"]:
+                            prop_bad.append("axes.attrs")
                 if want is not None and [fl(core_val(v)) for v in got["values"]] != [fl(v) for v in np.asarray(want, dtype=float).reshape(-1)]:
                     prop_bad.append("values:numpy")
                 if c["op"] == "diff" and c["keepaxis"]:
@@ -288,12 +594,32 @@ class C09(Prop):
         return any(len(a["labels"]) > 1 for a in c["array"]["axes"])
 
     def features(self, c, io):
+        ax = c["axis"]
         f = {"outcome": "err:" + io["err"] if "err" in io else "ok", "op": c["op"], "rank": len(c["array"]["axes"]),
-             "vkind": c["array"]["vkind"]}
+             "vkind": c["array"]["vkind"], "nan": bool(c["array"].get("nan_at")),
+             "axis": "none" if ax is None else ("default" if ax == "default" else ("tuple" if ax[0] == "many" else ax[0])),
+             "axis_attrs": any(x.get("attrs_py") for x in c["array"]["axes"]), "modelled": self.modelled(c)}
+        if ax not in (None, "default") and ax[0] == "many":
+            kinds = {("name" if k[0] == "name" else ("neg" if k[1] < 0 else "pos")) for k in ax[1]}
+            f["tuple_elems"] = "mixed" if len(kinds) > 1 else kinds.pop()
+            f["tuple_len"] = "all" if len(ax[1]) == len(c["array"]["axes"]) else "some"
+            f["tuple_as"] = "list" if len(ax) > 2 else "tuple"
+        if c["op"] in ("cum", "arg"):
+            sk = c.get("skipna")
+            f["skipna"] = "default" if sk is None else (("pos:" if c.get("positional") else "kw:") + str(sk))
+        if c["op"] == "cum":
+            f["fn"] = c["fn"]
         if c["op"] == "diff":
             f.update({"scheme": c["scheme"], "keepaxis": c["keepaxis"], "n": c["n"]})
         if c["op"] == "arg":
-            f.update({"fn": c["fn"], "whole": c["axis"] is None, "ties": c["array"].get("ties", False), "nan": bool(c["array"].get("nan_at"))})
+            f.update({"fn": c["fn"], "whole": c["axis"] is None, "ties": c["array"].get("ties", False)})
+            if c["array"].get("nan_at") and c["array"]["vkind"] == "f":
+                a = self.build(c)
+                red = resolve_dims(ax, list(a.dims))
+                keep = [i for i, d in enumerate(a.dims) if red is not None and d not in red]
+                m = np.isnan(a.values)
+                m = m.transpose(keep + [i for i in range(a.ndim) if i not in keep]).reshape(int(np.prod([a.shape[i] for i in keep])) if keep else 1, -1)
+                f["allnan_slice"] = bool(m.all(axis=1).any())
         return f
 
     def size(self, c):
